@@ -61,6 +61,7 @@ inductive LatKind where
   | minInt      -- `Dual<i64>`
   | setUnion    -- `Set<i64>`
   | optMax      -- `Option<i64>`
+  | bset3       -- `BoundedSet<3, i64>`: `.set l` for a set, `.optNone` for TOP
 deriving Repr, DecidableEq
 
 def intOf : Val → Int
@@ -127,6 +128,12 @@ def LatKind.joinMut : LatKind → Val → Val → Val × Bool
       | _ => none
     let r := Lat.joinMut (dec a) (dec b)
     ((match r.1 with | some x => .optSome (.int x.val) | none => .optNone), r.2)
+  | .bset3, a, b =>
+    let dec : Val → BSet 3 := fun
+      | .set l => ⟨some ⟨l⟩⟩
+      | _ => ⟨none⟩
+    let r := Lat.joinMut (dec a) (dec b)
+    ((match r.1.val with | some x => .set x.elems | none => .optNone), r.2)
   | _, a, _ => (a, false)
 
 def interp (kinds : RelId → LatKind) : Interp Ex Bx Gx Px Ax where
